@@ -18,5 +18,6 @@ CONSTANTS
   Bug_DeletePinned = FALSE
   Bug_ImmDropEarly = FALSE
   Bug_FlushDeepDuringCompaction = FALSE
+  Bug_ExpandKeepsParents = FALSE
 POSTCONDITION TraceAccepted
 CHECK_DEADLOCK FALSE
